@@ -122,17 +122,30 @@ def main():
 
     t0 = time.time()
     rng = random.Random(seed)
-    units = P['units'](tier, rng)          # [(engine, harness, descr)]
-    engines = sorted({u[0] for u in units})
     results = {}
     reused = 0
     inconclusive = []
     key_by_engine = {}
+    prepared = {}
+    # engines that generate their harness crate from /repo do so first (the
+    # harness list of a property depends on what was generated)
+    for engine in P['engines']:
+        E = plan.ENGINES[engine]
+        if E.get('prepare'):
+            with kani_run.EngineLock(engine):
+                err = E['prepare'](tier)
+            prepared[engine] = err
+            if err:
+                inconclusive.append(f'{engine}: generating the harness crate from /repo failed: {err}')
+    units = P['units'](tier, rng)          # [(engine, harness, descr)]
+    units = [u for u in units if not prepared.get(u[0])]
+    engines = sorted({u[0] for u in units})
     for engine in engines:
         E = plan.ENGINES[engine]
         hs = [u[1] for u in units if u[0] == engine]
         with kani_run.EngineLock(engine):
             if E.get('prepare'):
+                # regenerate under the lock: another check may have run in between
                 err = E['prepare'](tier)
                 if err:
                     inconclusive.append(f'{engine}: prepare failed: {err}')
@@ -155,7 +168,7 @@ def main():
                 jobs = int(os.environ.get('VERIF_JOBS', '12'))
                 logp = os.path.join(CACHE, f'log-{engine}-{pid}-{tier}.txt')
                 log(f'[{pid}] {engine}: running {len(todo)} harness(es) with Kani (cap {cap}s each, -j {min(jobs, len(todo))}); log {logp}')
-                res, err, wall = kani_run.run_batch(engine, E['dir'], E['crate'], todo, cap, jobs, logp)
+                res, err, wall = kani_run.run_batch(engine, E['dir'], E['crate'], todo, cap, jobs, logp, prefix=E.get('harness_prefix', ''))
                 if err:
                     inconclusive.append(f'{engine}: {err}')
                 for h, r in res.items():
@@ -201,6 +214,10 @@ def main():
         unwinding = [f for f in fcs if 'unwinding assertion' in f]
         if unwinding:
             inconclusive.append(f'{h}: unwinding bound too small ({unwinding[0]})')
+            continue
+        broken = [f for f in fcs if f.strip().strip('"').startswith('harness:')]
+        if broken:
+            inconclusive.append(f'{h}: a harness self-check failed ({broken[0]}): the harness does not fit the generated code any more')
             continue
         mine = [f for f in fcs if relevant(pid, f)]
         if not mine:
